@@ -567,8 +567,9 @@ func c09Handoff(c *Ctx) {
 // connection once the relay runs is Transport.WritePacket, which C09/tunnel shows is called under the
 // tunnel's write mutex. Any other first-party call that writes to such a connection (a close frame
 // in Close(), a ping from another goroutine) bypasses that mutex.
-func c09ConnWriters(c *Ctx) {
-	rule := "C09/conn-writers"
+func c09ConnWriters(c *Ctx) { c09ConnWritersAs(c, "C09/conn-writers") }
+
+func c09ConnWritersAs(c *Ctx, rule string) {
 	gorilla := "github.com/gorilla/websocket"
 	writeFamily := map[string]bool{"WriteMessage": true, "WriteControl": true, "NextWriter": true, "WriteJSON": true, "WritePreparedMessage": true}
 	n := 0
